@@ -66,7 +66,7 @@ def _store(e, path):
 def m_value_ok(text):
     """cipher id (1 octet) || session key || INT(2; sum(key) mod 65536) - the checksum expression is folded, not compared."""
     its = split_items(text)
-    if len(its) != 3 or its[0] != 'INT(1;symalg)' or its[1] != 'symkey':
+    if len(its) != 3 or its[0] != 'BYTE(symalg)' or its[1] != 'symkey':
         return False
     if not (its[2].startswith('INT(2;') and its[2].endswith(')')):
         return False
@@ -100,7 +100,7 @@ def pkesk(rep, prog):
                 rep.check(a[0] == 'pk' and len(a) == 2 and not enc[0][2], 'C03.1', W, 'ECDH: %s' % a[0],
                           'ECDH must wrap the m-value for the recipient key itself', where=fi.where, scenario=alg, found=a[:1] + a[2:])
             stores = [v for p, v, l, _ in s.stores if p == 'self.ct']
-            rep.check(len(stores) == 1 and stores[0].startswith('self.ct.encrypt('), 'C03.1', W,
+            rep.check(stores == [call_text(enc[0])], 'C03.1', W,
                       '%s: self.ct = %s' % (alg, stores[0][:60] if stores else None), 'the packet must carry the result of the encryption',
                       where=fi.where, scenario=alg)
             rep.check(_events_order(s, lambda e: _store(e, 'self.ct'), lambda e: _call(e, 'self.update_hlen')), 'C03.1', W, '%s: update_hlen' % alg,
@@ -141,27 +141,34 @@ def seipd(rep, prog):
     W = 'IntegrityProtectedSKEDataV1.encrypt'
     PREFIX = ['alg.gen_iv()', sl('alg.gen_iv()', (-2, '')), 'data']
     for s in run_roles(prog, fi, ('self', 'key', 'alg', 'data')):
-        enc = [c for c in s.calls if c[0] == '_encrypt']
+        enc = taint.calls_named(s, '_encrypt')
         if len(enc) != 1:
             raise AnalysisError('IntegrityProtectedSKEDataV1.encrypt: expected one _encrypt call')
         a = list(enc[0][1]) + [None] * 3
         its = split_items(a[0])
         mdcs = [n for n in taint.objects(s) if taint.obj_of_class(s, n, 'MDC')]
-        ser = ['%s.__bytes__()' % n for n in mdcs] + ['%s.__bytearray__()' % n for n in mdcs]
+        ser = ['%s.__bytes__()' % n for n in mdcs] + ['%s.__bytearray__()' % n for n in mdcs] + list(mdcs)     # bytes(mdc) renders as the object
         ok = len(mdcs) == 1 and its[:3] == PREFIX and len(its) == 4 and its[3] in ser and len(taint.draws(s, 'gen_iv')) == 1
         rep.check(ok and a[1] == 'key' and a[2] == 'alg' and (a[3] in (None, 'None')) and not enc[0][2], 'C03.2', W, 'plaintext %s' % a[0],
                   'plaintext = random block || its last two octets || data || MDC packet, encrypted under (key, alg) with zero IV',
                   where=fi.where, expected=' '.join(PREFIX) + ' <MDC>.__bytes__()', found=enc[0][1])
         mdc = [norm_term(v) for p, v, l, _ in s.stores if p.endswith('.mdc') and p[:-4] in mdcs]
-        exp_mdc = 'binascii.hexlify(HASH(sha1;%s C(d314)))' % ' '.join(PREFIX)
-        rep.check(mdc == [exp_mdc], 'C03.2', W, 'mdc = %s' % mdc,
+        H = 'HASH(sha1;%s C(d314))' % ' '.join(PREFIX)
+        exp_mdc = 'binascii.hexlify(%s)' % H
+        # hexlify(digest) and hexdigest().encode(<ascii-compatible>) are the same 40 octets
+        same = len(mdc) == 1 and (mdc[0] == exp_mdc or (split_args(mdc[0]) or ('', []))[0] == 'hex(%s).encode' % H)
+        rep.check(same, 'C03.2', W, 'mdc = %s' % mdc,
                   'the MDC is SHA-1 over prefix || data || d3 14 (RFC 4880 5.13)', where=fi.where, expected=exp_mdc, found=mdc)
-        order = [e[1].split('.')[-1] for e in s.events if e[0] == 'call' and e[1].split('.')[0] in mdcs and
-                 e[1].split('.')[-1] in ('update_hlen', '__bytes__', '__bytearray__')]
-        rep.check(order[:1] == ['update_hlen'] and len(order) == 2, 'C03.2', W, 'order %s' % order,
+        order = []
+        for e in s.events:
+            if e[0] == 'call' and e[1].split('.')[0] in mdcs and e[1].split('.')[-1] in ('update_hlen', '__bytes__', '__bytearray__'):
+                order.append('update_hlen' if e[1].endswith('.update_hlen') else 'serialise')
+            elif e[0] == 'call' and e[1] in ('bytes', 'bytearray') and len(e[2]) == 1 and e[2][0] in mdcs:
+                order.append('serialise')
+        rep.check(order == ['update_hlen', 'serialise'], 'C03.2', W, 'order %s' % order,
                   'the MDC packet header must be recomputed before it is serialised', where=fi.where)
         st = [v for p, v, l, _ in s.stores if p == 'self.ct']
-        rep.check(len(st) == 1 and st[0].startswith('_encrypt('), 'C03.2', W, 'self.ct', 'packet carries the ciphertext', where=fi.where)
+        rep.check(st == [call_text(enc[0])], 'C03.2', W, 'self.ct', 'packet carries the ciphertext', where=fi.where)
     # the MDC packet serialises as d3 14 || digest: tag 0x13, new format default, 20 octets < 192 -> one length octet
     mdc = prog.cls('pgpy.packet.packets', 'MDC')
     tid = mdc.attrs.get('__typeid__')
@@ -202,11 +209,11 @@ def skesk(rep, prog):
     ALG = 'self.s2k.encalg'             # the packet's cipher: the symalg property is read through (inline_props)
     KEK = 'self.s2k.derive_key(passphrase)'
     for s in run_roles(prog, fe, ('self', 'passphrase', 'sk'), inline_props={'symalg'}):
-        enc = [c for c in s.calls if c[0] == '_encrypt']
+        enc = taint.calls_named(s, '_encrypt')
         a = (list(enc[0][1]) + [None] * 4)[:4] if len(enc) == 1 else [None] * 4
-        ok = len(enc) == 1 and split_items(a[0]) == ['INT(1;%s)' % ALG, 'sk'] and a[1] == KEK and a[2] == ALG and a[3] in (None, 'None') and not enc[0][2]
+        ok = len(enc) == 1 and split_items(a[0]) == ['BYTE(%s)' % ALG, 'sk'] and a[1] == KEK and a[2] == ALG and a[3] in (None, 'None') and not enc[0][2]
         ct = [v for p, v, l, _ in s.stores if p == 'self.ct']
-        rep.check(ok and len(ct) == 1 and ct[0].startswith('_encrypt('), 'C03.3', 'SKESessionKeyV4.encrypt_sk', 'ct = %s' % ct,
+        rep.check(ok and ct == [call_text(enc[0])], 'C03.3', 'SKESessionKeyV4.encrypt_sk', 'ct = %s' % ct,
                   'the encrypted session key is CFB(cipher id || key) under the S2K-derived key with the packet\'s cipher (RFC 4880 5.3)',
                   where=fe.where, expected='_encrypt(INT(1;%s) sk, %s, %s)' % (ALG, KEK, ALG), found=ct)
         rep.check(_events_order(s, lambda e: _store(e, 'self.ct'), lambda e: _call(e, 'self.update_hlen')), 'C03.3', 'SKESessionKeyV4.encrypt_sk',
@@ -264,7 +271,7 @@ def symenc(rep, prog):
             found = [render(s.ret) for s in rets]
             if ok:
                 s = rets[0]
-                ctor = [c for c in s.calls if c[0] == 'Cipher']
+                ctor = taint.calls_named(s, 'Cipher')
                 ca = bind_call(ctor[0], ['algorithm', 'mode', 'backend']) if len(ctor) == 1 else {}
                 ok = len(ctor) == 1 and set(ca) == {'algorithm', 'mode', 'backend'} and ca['algorithm'] == 'alg.cipher(key)' and \
                     ca['backend'] == 'default_backend()'
@@ -302,7 +309,7 @@ def ecdh(rep, prog):
     fk = prog.method('pgpy.packet.fields', 'ECKDF', 'derive_key')
     rep.saw(fn=fk)
     for s in run_roles(prog, fk, ('self', 's', 'curve', 'pkalg', 'fingerprint')):
-        kd = [c for c in s.calls if c[0] == 'ConcatKDFHash']
+        kd = taint.calls_named(s, 'ConcatKDFHash')
         if len(kd) != 1:
             raise AnalysisError('ECKDF.derive_key: expected one ConcatKDFHash construction')
         kw = _kdf_args(kd[0])
@@ -337,24 +344,24 @@ def ecdh(rep, prog):
             rep.check(ok, 'C03.5', 'ECDHCipherText.%s' % which, 'derive_key(%s)' % (da or None),
                       'both directions must derive the KEK from (shared secret, recipient curve, ECDH id, recipient fingerprint) '
                       'with the recipient key\'s own KDF parameters', where=f.where, scenario=scen)
-            pad = [c for c in s.calls if c[0] == 'PKCS7']
+            pad = taint.calls_named(s, 'PKCS7')
             rep.check(len(pad) == 1 and bind_call(pad[0], ['block_size']) == {'block_size': '64'}, 'C03.5',
                       'ECDHCipherText.%s' % which, 'PKCS7(%s)' % (pad[0][1] if pad else None),
                       'the m-value is PKCS#5 padded to a multiple of 8 octets', where=f.where, scenario=scen)
             P = call_text(pad[0]) if pad else 'PKCS7(64)'
             KEK = call_text(dk[0]) if dk else '?'
             if which == 'encrypt':
-                w = [c for c in s.calls if c[0] == 'aes_key_wrap']
+                w = taint.calls_named(s, 'aes_key_wrap')
                 ok = len(w) == 1 and len(w[0][1]) >= 2 and \
                     concat_parts(w[0][1][1]) == ['%s.padder().update(m)' % P, '%s.padder().finalize()' % P] and \
                     w[0][1][0] == KEK
                 rep.check(ok, 'C03.5', 'ECDHCipherText.encrypt', 'aes_key_wrap(kek, padded m)', 'C = AESKeyWrap(Z, padded m)', where=f.where,
                           scenario=scen, found=w[0][1][1] if w else None)
                 cst = [v for p, v, l, _ in s.stores if p.endswith('.c')]
-                rep.check(len(cst) == 1 and cst[0].startswith('aes_key_wrap('), 'C03.5', 'ECDHCipherText.encrypt', 'ct.c', 'the packet carries C',
+                rep.check(len(w) == 1 and cst == [call_text(w[0])], 'C03.5', 'ECDHCipherText.encrypt', 'ct.c', 'the packet carries C',
                           where=f.where, scenario=scen)
             else:
-                w = [c for c in s.calls if c[0] == 'aes_key_unwrap']
+                w = taint.calls_named(s, 'aes_key_unwrap')
                 ok = len(w) == 1 and len(w[0][1]) >= 2 and w[0][1][1] == 'self.c' and w[0][1][0] == KEK
                 U = 'aes_key_unwrap(%s)' % ', '.join(w[0][1]) if w else ''
                 ok = ok and concat_parts(render(s.ret)) == ['%s.unpadder().update(%s)' % (P, U), '%s.unpadder().finalize()' % P]
@@ -364,7 +371,7 @@ def ecdh(rep, prog):
     cb = prog.method('pgpy.packet.fields', 'ECDHCipherText', '__bytearray__')
     for s in run_roles(prog, cb, ('self',)):
         r = split_items(render(s.ret))
-        rep.check(r in (['self.p.to_mpibytes()', 'BYTE(len(self.c))', 'self.c'], ['self.p.to_mpibytes()', 'LEN(1;self.c)', 'self.c']), 'C03.5',
+        rep.check(r == ['self.p.to_mpibytes()', 'BYTE(len(self.c))', 'self.c'], 'C03.5',
                   'ECDHCipherText.__bytearray__', 'return %s' % ' '.join(r),
                   'ECDH session key = MPI(ephemeral point) || one-octet length of C || C (RFC 6637 section 8)', where=cb.where, found=r)
 
